@@ -264,8 +264,11 @@ def _analyze_node(node, config: Config, cwd: Path, *, remote: bool = False) -> D
     elif kind == "arith-cmd":
         # (( expr )) - check for command substitutions in the expression
         decisions = _analyze_expansion(node.expression, config, cwd, remote=remote)
-        if _has_unclosed_arith(getattr(node, "raw_content", "") or ""):
+        raw_content = getattr(node, "raw_content", "") or ""
+        if _has_unclosed_arith(raw_content):
             decisions.append(Decision("ask", "ambiguous $(( expansion"))
+        if _substitutions_lost(raw_content, node.expression):
+            decisions.append(Decision("ask", "substitution not analysed"))
         decisions.extend(_analyze_redirects(node, config, cwd, remote=remote))
         return _combine(decisions) if decisions else Decision("allow", "arithmetic")
 
@@ -306,6 +309,8 @@ def _analyze_command(
         word_value = getattr(word, "value", "")
         if parts and _has_unclosed_arith(word_value):
             decisions.append(Decision("ask", "ambiguous $(( expansion"))
+        if _substitutions_lost(word_value, word):
+            decisions.append(Decision("ask", "substitution not analysed"))
         # Check if this is a pure cmdsub (entire word is just a cmdsub)
         is_pure_cmdsub = (
             len(parts) == 1
@@ -469,7 +474,22 @@ WRAPPER_FLAGS_WITH_ARG = {
     "nice": frozenset({"-n", "--adjustment"}),
     "time": frozenset({"-o", "--output", "-f", "--format"}),
     "strace": frozenset(
-        {"-a", "-b", "-e", "-E", "-I", "-o", "-O", "-p", "-P", "-s", "-S", "-u", "-U", "-X"}
+        {
+            "-a",
+            "-b",
+            "-e",
+            "-E",
+            "-I",
+            "-o",
+            "-O",
+            "-p",
+            "-P",
+            "-s",
+            "-S",
+            "-u",
+            "-U",
+            "-X",
+        }
     ),
     "ltrace": frozenset(
         {"-a", "-A", "-D", "-e", "-l", "-n", "-o", "-p", "-s", "-u", "-w", "-x", "-F"}
@@ -711,6 +731,10 @@ def _analyze_word_parts(
     parts = getattr(word, "parts", [])
     if parts and _has_unclosed_arith(getattr(word, "value", "") or ""):
         decisions.append(Decision("ask", "ambiguous $(( expansion"))
+    if (parts or not scan_raw) and _substitutions_lost(
+        getattr(word, "value", "") or "", word
+    ):
+        decisions.append(Decision("ask", "substitution not analysed"))
     for part in parts:
         part_kind = getattr(part, "kind", None)
         if part_kind == "cmdsub":
@@ -856,6 +880,66 @@ def _analyze_string_cmdsubs(
         else:
             i += 1
     return decisions
+
+
+def _count_openers(text: str) -> int:
+    """Number of substitutions bash would start in text: "$(" (not "$((") and
+    process substitutions outside single quotes, plus pairs of backticks."""
+    count = 0
+    backticks = 0
+    i, n = 0, len(text)
+    in_single = in_double = False
+    while i < n:
+        c = text[i]
+        if in_single:
+            in_single = c != "'"
+        elif c == "\\":
+            i += 1  # the next character is escaped
+        elif c == "'" and not in_double:
+            in_single = True
+        elif c == '"':
+            in_double = not in_double
+        elif c == "`":
+            backticks += 1
+        elif c == "$" and text[i + 1 : i + 2] == "(" and text[i + 2 : i + 3] != "(":
+            count += 1
+        elif c in "<>" and text[i + 1 : i + 2] == "(" and not in_double:
+            count += 1
+        i += 1
+    return count + backticks // 2
+
+
+def _count_substitution_nodes(node) -> int:
+    """Substitutions the parser reports below node: cmdsub/procsub nodes, plus the
+    openers in raw string attributes (those are scanned as text)."""
+    if node is None:
+        return 0
+    count = 1 if getattr(node, "kind", None) in ("cmdsub", "procsub") else 0
+    is_word = getattr(node, "kind", None) == "word"
+    for value in vars(node).values():
+        if isinstance(value, str):
+            if not is_word:
+                count += _count_openers(value)
+        elif isinstance(value, list):
+            count += sum(
+                _count_substitution_nodes(v) for v in value if hasattr(v, "kind")
+            )
+        elif hasattr(value, "kind"):
+            count += _count_substitution_nodes(value)
+    return count
+
+
+def _substitutions_lost(text: str, node) -> bool:
+    """True if text starts more substitutions than the parser reports below node.
+
+    In some nestings (a quoted backtick or a process substitution inside a
+    command substitution inside [[ ]], non-arithmetic text inside $(( ))) the
+    parser returns a word without the parts bash would expand, so the walk would
+    never see them.
+    """
+    if "$(" not in text and "`" not in text and "<(" not in text and ">(" not in text:
+        return False
+    return _count_openers(text) > _count_substitution_nodes(node)
 
 
 def _has_unclosed_arith(s: str) -> bool:
